@@ -53,9 +53,9 @@ reg("C07", "fault_enumeration",
     "file operation), F3 (random multi-fault sequences over several attempts), F3m (1..6 certificates sharing account and endpoint, any subset "
     "failing permanently). Oracles: no panic; every attempt ends; one post-operation batch per attempt with a faithful report; >= 1 s between "
     "a failed attempt and the next one; healthy certificates are issued. Non-trivial = a run in which at least one attempt failed.",
-    quick=[("F2", 100000), ("F2h", 100000), ("F2s", 100000), ("F3", 800), ("F3m", 500)],
-    thorough=[("F2", 100000), ("F2b", 100000), ("F2h", 100000), ("F2s", 100000), ("F3", 60000), ("F3m", 20000)],
-    exhaustive_families=["F2", "F2b", "F2h", "F2s"])
+    quick=[("F2", 100000), ("F2f", 100000), ("F2h", 100000), ("F2s", 100000), ("F3", 800), ("F3m", 500)],
+    thorough=[("F2", 100000), ("F2b", 100000), ("F2f", 100000), ("F2h", 100000), ("F2s", 100000), ("F3", 60000), ("F3m", 20000)],
+    exhaustive_families=["F2", "F2b", "F2f", "F2h", "F2s"])
 
 reg("C02", "exploration",
     "F4: renewal histories (1..2 certificates, 1..8 issuances each) in which the CA's chain length (1..4) and lifetime change per issuance, "
@@ -63,8 +63,8 @@ reg("C02", "exploration",
     "completed write through the storage seam the real file is read back and must equal exactly the bytes written; after every successful attempt "
     "the certificate file equals the CA's served body byte for byte and the key file is the CSR's key. Non-trivial = a run in which an existing "
     "file was rewritten.",
-    quick=[("F4", 1000), ("F4c", 48), ("F6", 250)],
-    thorough=[("F4", 50000), ("F4c", 48), ("F6", 10000), ("F6x", 20000)])
+    quick=[("F4", 1000), ("F4c", 48), ("F6", 250), ("F1", 500)],
+    thorough=[("F4", 50000), ("F4c", 48), ("F6", 10000), ("F6x", 20000), ("F1", 50000)])
 
 reg("C06", "exploration",
     "F4: renewal histories over up to 4000 virtual days: CA lifetimes from already-expired to 10 years, renew_delay/random_early_renew from 0s to "
